@@ -65,11 +65,16 @@ def build(case):
         else:
             cube.extra_coords.add((f"lon{k}", f"lat{k}"), ec["axis"], SkyCoord(v * u.deg / 10, (v / 2 - 5) * u.deg / 10, frame="icrs"), mesh=False)
     if case["pre"] == "slice":
-        item = tuple(slice(1, None) for _ in shape)
-        # (an integer on one axis of a 2-axis table is C02's concern)
-        if len(shape) > 1 and not any(e["kind"] == "quantity2" and 0 in e["axis"] for e in case["ecs"]):
-            item = (1,) + item[1:]
-        cube = cube[item]
+        item = [slice(1, None) for _ in shape]
+        # an integer on an axis that carries no part of a 2-axis table (one *of* its axes is C02's concern),
+        # possibly an axis lying between the two axes of such a table
+        used = {a for e in case["ecs"] if e["kind"] == "quantity2" for a in e["axis"]}
+        free = [a for a in range(len(shape)) if a not in used]
+        if len(shape) > 1 and free:
+            # index 2, never the reference pixel of the FITS families (crpix - 1 is -1, 0, 0.5 or 1): along a cut
+            # exactly through the reference pixel a celestial longitude is constant although structurally coupled
+            item[free[case["wseed"] % len(free)]] = 2
+        cube = cube[tuple(item)]
     elif case["pre"] == "rebin" and not any(e["kind"] == "quantity2" for e in case["ecs"]):
         # (multi-table Quantity coordinates cannot be resampled onto grids of different lengths: C19's concern)
         bins = tuple(2 if s % 2 == 0 else 1 for s in shape)
